@@ -620,7 +620,16 @@ func (e *catEngine) Gen(r *hlib.Rand, tier string) []string {
 			nextID++
 			probe()
 		case x < 70:
-			ops = append(ops, fmt.Sprintf("cat.merge %d %d", 1+r.Intn(nextID), 1+r.Intn(nextID)))
+			t := 1 + r.Intn(nextID)
+			s := 1 + r.Intn(nextID)
+			if r.Chance(60) { // neighbours by id are usually neighbours by range
+				if r.Bool() {
+					s = t + 1
+				} else if t > 1 {
+					s = t - 1
+				}
+			}
+			ops = append(ops, fmt.Sprintf("cat.merge %d %d", t, s))
 			probe()
 		case x < 78:
 			ops = append(ops, fmt.Sprintf("cat.remove %d", 1+r.Intn(nextID)))
